@@ -58,17 +58,19 @@ type rounds struct {
 	base     util.NodeDB // read-through base of the block trie
 	ver      int64
 	lastRoot util.Key
-	tries    map[int]*rtrie
-	order    []int
-	sc       *statecache.StateCache
-	bc       *statecache.BlockCache
-	known    map[int]bool // node ids whose graph row was shipped
-	saved    []savedRoot  // saved (version, root), in order
-	prune    int64
-	crashK   int // -1: none armed
-	elems    []grocksdb.Elem
-	snaps    [][]map[string][]byte
-	sig      bytes.Buffer
+	// root the current round started from (a completed round may be executed again at the same version: "rerun")
+	roundStart util.Key
+	tries      map[int]*rtrie
+	order      []int
+	sc         *statecache.StateCache
+	bc         *statecache.BlockCache
+	known      map[int]bool // node ids whose graph row was shipped
+	saved      []savedRoot  // saved (version, root), in order
+	prune      int64
+	crashK     int // -1: none armed
+	elems      []grocksdb.Elem
+	snaps      [][]map[string][]byte
+	sig        bytes.Buffer
 }
 
 type savedRoot struct {
@@ -328,6 +330,7 @@ func RunRounds(w *tr.Writer, in *tr.Interner, st *RStats, tid int, h RHist) {
 			r.bc = statecache.NewBlockCache(r.sc, statecache.Block{Round: op.Ver, Hash: fmt.Sprintf("blk%d", op.Ver), PrevHash: fmt.Sprintf("blk%d", op.Ver-1)})
 			db := util.NewLevelNodeDB(util.NewMemoryNodeDB(), r.base, false)
 			c := r.newCache()
+			r.roundStart = r.lastRoot
 			r.tries[0] = &rtrie{id: 0, cache: c, trie: util.NewMerklePatriciaTrie(db, util.Sequence(op.Ver), r.lastRoot, c)}
 			r.emit(map[string]any{"op": "round", "ver": op.Ver, "from": in.ID(r.lastRoot)})
 		case "open":
@@ -364,6 +367,9 @@ func RunRounds(w *tr.Writer, in *tr.Interner, st *RStats, tid int, h RHist) {
 				broken[op.T] = true
 			}
 			r.emit(map[string]any{"op": op.Op, "t": op.T, "p": bridge.Chars(p), "v": op.V, "res": res})
+		case "rerun":
+			// the round just completed is executed again at the same version (other content) from the root it started from
+			r.lastRoot = r.roundStart
 		case "bulk":
 			// op.K seeded random updates of trie op.T executed as ONE trace event (composite action of the specification)
 			t := r.tries[op.T]
@@ -644,6 +650,11 @@ func GenRounds(rnd *rand.Rand, persist bool) RHist {
 			h.Ops = append(h.Ops, ROp{Op: "save"})
 		}
 		lastSaved = ver
+		if !crash && rnd.Intn(10) == 0 {
+			// execute this round once more at the same version, with whatever the generator draws next
+			h.Ops = append(h.Ops, ROp{Op: "rerun"})
+			continue
+		}
 		if rnd.Intn(4) == 0 && lastSaved > 1 {
 			pv := lastSaved - int64(rnd.Intn(3))
 			if rnd.Intn(4) == 0 {
